@@ -119,8 +119,7 @@ PROPS = {
              "shape, reported level/mode/version/mask, length class); every tuple pins one configuration cell.",
         trusted=COMMON_TRUST, assumptions=["Spec.Decode is the ISO reference decoding without error correction (exact agreement required)"]),
     "C02": dict(
-        module="FastQr.Props.C02", more_modules=["FastQr.Props.C02Built"], level="proof", key=key_build, partial=True,
-        missing=["recovery corollary (floor(ec/2) errors) follows from zero syndromes by the BCH bound, which is cited, not proved in Lean"],
+        module="FastQr.Props.C02", more_modules=["FastQr.Props.C02Built"], level="proof", key=key_build,
         rule="cases: as C01; spec verdict = Table 9 block split of the read-out codewords, zero remainder bits, all syndromes "
              "alpha^0..alpha^(ec-1) zero in every block. distinct as C01.",
         trusted=COMMON_TRUST),
